@@ -55,6 +55,7 @@ type Device struct {
 	mu        sync.Mutex
 	Cfg       map[string]string      // canonical path -> canonical value
 	CfgPaths  map[string]*sdcpb.Path // canonical path -> path
+	prePaths  map[string]*sdcpb.Path // every canonical path ever held (never shrinks)
 	Calls     []*SetCall
 	RenderAll bool
 	FailCall  map[int]error // fail the k-th Set call (0-based) with this error
@@ -63,7 +64,7 @@ type Device struct {
 }
 
 func NewDevice() *Device {
-	return &Device{Cfg: map[string]string{}, CfgPaths: map[string]*sdcpb.Path{}, FailCall: map[int]error{}}
+	return &Device{Cfg: map[string]string{}, CfgPaths: map[string]*sdcpb.Path{}, prePaths: map[string]*sdcpb.Path{}, FailCall: map[int]error{}}
 }
 
 // Preload sets the initial configuration of the device.
@@ -71,6 +72,7 @@ func (d *Device) Preload(p *sdcpb.Path, val string) {
 	c := CanonPath(p)
 	d.Cfg[c] = val
 	d.CfgPaths[c] = p
+	d.prePaths[c] = p
 }
 
 func (d *Device) Get(ctx context.Context, req *sdcpb.GetDataRequest) (*sdcpb.GetDataResponse, error) {
@@ -195,6 +197,7 @@ func (d *Device) Set(ctx context.Context, source target.TargetSource) (*sdcpb.Se
 		call.Updates[c] = v
 		d.Cfg[c] = v
 		d.CfgPaths[c] = u.GetPath()
+		d.prePaths[c] = u.GetPath()
 	}
 	sort.Strings(call.Deletes)
 	return &sdcpb.SetDataResponse{}, nil
